@@ -486,6 +486,11 @@ def check(eng, rep, prop):
         n += 1
         site = site_of(prog, s.func, s.node)
         if s.category in ("FRESH", "INJ"):
+            if s.kind == "loop-name":
+                ok, why = registry_records(s)
+                if not ok:
+                    rep.violation("R5", prop + ".R5", s.func.qname, "fresh-name-not-recorded", why, site=site)
+                    continue
             rep.holds("R5", prop + ".R5", s.func.qname, "%s:%s" % (s.category.lower(), s.sig), s.why, site=site)
             continue
         if ent is None:
@@ -617,6 +622,22 @@ def _default_prop(fshort: str) -> str:
             "PDAObjectCreator": "C13", "FST": "C16", "FSTStateRemaining": "C16", "Regex": "C05", "regex_objects": "C05",
             "FCFG": "C18", "fcfg": "C18", "IndexedGrammar": "C17", "RecursiveAutomaton": "C20", "Box": "C20",
             "LLOneParser": "C14", "CYKTable": "C08", "RegexReader": "C05", "PythonRegex": "C07"}.get(head, "C19")
+
+
+def registry_records(s: NameSite):
+    """A freshness loop against a registry kept by the object itself (`while v in self._seen: ...`) must put the
+    generated name v into that registry afterwards, otherwise the same name is handed out again."""
+    loops = freshness_loop_vars(s.func.node)
+    var = s.cls
+    coll = loops.get(var)
+    if coll is None or not coll.startswith("self."):
+        return True, ""
+    for c in ast.walk(s.func.node):
+        if isinstance(c, ast.Call) and isinstance(c.func, ast.Attribute) and c.func.attr in ("add", "append") and \
+                ast.unparse(c.func.value) == coll and c.args and isinstance(c.args[0], ast.Name) and c.args[0].id == var:
+            return True, ""
+    return False, "the name generated by the freshness loop (`%s`) is never recorded in %s: a later collision gets the same " \
+                  "name again and two states are merged" % (var, coll)
 
 
 def closed_world_ok(prog, s: NameSite):
